@@ -214,7 +214,9 @@ def medium_items(ctx):
                 for s in (segs if cname in ("none auto", "zstd-l9 auto", "none auto max=9000", "none auto max=100") else segs[:2]):
                     if s == "1" and n > 1000:
                         continue
-                    items.append(("%s/%d %s seg=%s" % (kind, n, cname, s), cline, content, segmentation(n, s), "32768;7" if n <= 10000 else "32768"))
+                    # read buffers larger than the library's 32 KiB blocks once the content is larger than that
+                    items.append(("%s/%d %s seg=%s" % (kind, n, cname, s), cline, content, segmentation(n, s),
+                                  "32768;7" if n <= 10000 else ("32768;32769;100000;1048576" if s in ("whole", "7") else "32768")))
             # manual chunking with end-chunk every m writes
             for m, k in ((1, 4096), (3, 1000), (2, 32769)):
                 if n >= k:
